@@ -15,6 +15,7 @@ type Expr struct {
 	Family     string
 	Preserving bool     // every result is a node of the input document (possibly updated in place)
 	Mutating   bool     // updates the document
+	Total      bool     // every traversal hits an existing path of a "full" schema document
 	Alts       []string // simpler expressions for the shrinker
 }
 
@@ -207,8 +208,8 @@ func GenExpr(r *Rand) Expr {
 		{".b | @sh", "encode", false, false},
 		{"explode(.)", "anchors", true, true},
 		{".c2 | alias", "anchors", false, false},
-		{"split_doc", "splitdoc", true, false},
-		{".d[] | split_doc", "splitdoc", true, false},
+		{"split_doc", "splitdoc", false, false},
+		{".d[] | split_doc", "splitdoc", false, false},
 		{"eval(\".a\")", "eval", true, false},
 		{"error(\"boom\")", "error", false, false},
 		{"select(.a > " + n + ") | error(\"boom at \" + .id)", "error", false, false},
@@ -219,18 +220,22 @@ func GenExpr(r *Rand) Expr {
 		{".ids = [.id, @DI@]", "assign-index", true, true},
 	}
 	t := Pick(r, ts)
-	e := Expr{S: t.s, Family: t.family, Preserving: t.preserving, Mutating: t.mutating}
+	e := Expr{S: t.s, Family: t.family, Preserving: t.preserving, Mutating: t.mutating, Total: exprTotal(t.s)}
 	// occasionally pipe two expressions
 	if r.Chance(1, 6) {
 		u := Pick(r, ts)
 		if u.family != "error" && t.family != "error" {
-			e = Expr{S: "(" + t.s + ") | (" + u.s + ")", Family: t.family + "|" + u.family, Preserving: t.preserving && u.preserving, Mutating: t.mutating || u.mutating}
+			if !t.preserving && usesIndex(u.s) {
+				// di/fi/filename of a node built by the expression is a known finding (no provenance); not drawn
+				return e
+			}
+			e = Expr{S: "(" + t.s + ") | (" + u.s + ")", Family: t.family + "|" + u.family, Preserving: t.preserving && u.preserving, Mutating: t.mutating || u.mutating, Total: false}
 			e.Alts = append(e.Alts, t.s, u.s)
 		}
 	} else if r.Chance(1, 10) {
 		u := Pick(r, ts)
 		if u.family != "error" && t.family != "error" {
-			e = Expr{S: "(" + t.s + "), (" + u.s + ")", Family: t.family + "," + u.family, Preserving: t.preserving && u.preserving, Mutating: t.mutating || u.mutating}
+			e = Expr{S: "(" + t.s + "), (" + u.s + ")", Family: t.family + "," + u.family, Preserving: t.preserving && u.preserving, Mutating: t.mutating || u.mutating, Total: exprTotal(t.s) && exprTotal(u.s)}
 			e.Alts = append(e.Alts, t.s, u.s)
 		}
 	}
@@ -247,4 +252,21 @@ func GenExprWhere(r *Rand, ok func(Expr) bool) Expr {
 		}
 	}
 	panic(fmt.Sprintf("no expression satisfies the predicate"))
+}
+
+func usesIndex(s string) bool {
+	return strings.Contains(s, "@DI@") || strings.Contains(s, "@FI@") || strings.Contains(s, "filename")
+}
+
+var nonTotalMarks = []string{".missing", ".h", ".new", ".first", ".ids", ".pos", ".x = @", ".y = @", ".z = f", ".c2", "d[5]", ".q ", "merged", "extra", "\"w\"", "error(", "split_doc", "eval("}
+
+// exprTotal: the expression only traverses paths that exist in a document
+// generated with DocGen.Full (and does not fail on it).
+func exprTotal(s string) bool {
+	for _, m := range nonTotalMarks {
+		if strings.Contains(s, m) {
+			return false
+		}
+	}
+	return true
 }
